@@ -159,6 +159,18 @@ func runC27(c *Ctx) {
 	}
 	if fd, _ := c.MustFunc("R27d", "lang", "jobs", "List"); fd != nil {
 		ok := false
+		// the slot index used for the Process field of the same literal
+		slotIdx := ""
+		ast.Inspect(fd.Body, func(nd ast.Node) bool {
+			if kv, isKV := nd.(*ast.KeyValueExpr); isKV {
+				if id, isId := kv.Key.(*ast.Ident); isId && id.Name == "Process" {
+					if ix, isIx := unparen(kv.Value).(*ast.IndexExpr); isIx && isField(info, ix.X, jobsT, "jobs") {
+						slotIdx = c.src(ix.Index)
+					}
+				}
+			}
+			return true
+		})
 		ast.Inspect(fd.Body, func(nd ast.Node) bool {
 			kv, isKV := nd.(*ast.KeyValueExpr)
 			if !isKV {
@@ -169,7 +181,7 @@ func runC27(c *Ctx) {
 			}
 			ast.Inspect(kv.Value, func(m ast.Node) bool {
 				if b, isB := m.(*ast.BinaryExpr); isB && b.Op == token.ADD {
-					if v, isC := constInt(info, b.Y); isC && v == 1 {
+					if v, isC := constInt(info, b.Y); isC && v == 1 && slotIdx != "" && c.src(b.X) == slotIdx {
 						ok = true
 					}
 				}
@@ -177,7 +189,7 @@ func runC27(c *Ctx) {
 			})
 			return true
 		})
-		c.Check(ok, "R27d", "List:id-map", fd.Pos(), "List prints slot i as job ID i+1 (inverse of Get's n-1)")
+		c.Check(ok, "R27d", "List:id-map", fd.Pos(), "List prints the table slot i of the process it hands out as job ID i+1 (inverse of Get's n-1; a position in the output list would renumber running jobs when others finish)")
 	}
 	if fd, _ := c.MustFunc("R27d", "lang", "jobs", "_hasTerminated"); fd != nil {
 		ok := false
